@@ -335,3 +335,184 @@ Proof.
     + rewrite upd_same in Hs. apply Hm. apply (fold_assoc_nonzero st0 m q0). exact Hs.
     + rewrite upd_other in Hs by exact Hne. apply (I r0 m Hs).
 Qed.
+
+Lemma add_rxn_Inv s r : Inv s -> In r (rids s) -> Inv (add_rxn r s).
+Proof.
+  intros HI Hr. unfold add_rxn. destruct (rin s r) eqn:Er; [exact HI|].
+  conts. unfold add_rxn_content.
+  destruct (split_bounds (lb s r) (ub s r)) as [[fl fu] [rl ru]] eqn:Es.
+  unfold content, set_ctx. cbn.
+  destruct HI as [A B C D E G H I J K].
+  assert (Hback : forall m, back s m r = false).
+  { intros m. destruct (back s m r) eqn:Eb; [|reflexivity]. destruct (H m r Eb) as [_ [X _]]. congruence. }
+  constructor; cbn.
+  - intros r0. cbn. destruct (Z.eqb_spec r0 r) as [E0|Hne]; [subst r0; rewrite upd_same; tauto|].
+    rewrite upd_other by exact Hne. apply A.
+  - intros r0 Hr0. names. destruct (Z.eqb_spec r0 r) as [E0|Hne]; [subst r0; rewrite Es; reflexivity|].
+    rewrite upd_other in Hr0 by exact Hne. apply B. exact Hr0.
+  - intros m. rewrite C. reflexivity.
+  - intros m r0. names. destruct (Z.eqb_spec r0 r) as [E0|Hne]; [subst r0|].
+    + rewrite upd_same. cbn [andb]. destruct (D m r) as [D1 D2]. rewrite Er in D1, D2. cbn [andb] in D1, D2.
+      destruct (isz (sto s r m)) eqn:Ez; cbn [negb andb orb].
+      * apply isz_true in Ez. rewrite D1, D2, Ez, opp_q0, !if_same. tauto.
+      * rewrite orb_true_r. tauto.
+    + rewrite upd_other by exact Hne. cbn [andb]. destruct (D m r0) as [D1 D2]. rewrite D1, D2.
+      destruct (rin s r0) eqn:Er0; cbn [andb]; [|tauto].
+      destruct (min s m) eqn:Em; cbn [orb]; [tauto|].
+      destruct (isz (sto s r m)); cbn [negb]; [tauto|].
+      destruct (isz (sto s r0 m)) eqn:Ez0.
+      * apply isz_true in Ez0. rewrite Ez0, opp_q0. tauto.
+      * apply isz_false in Ez0. destruct (G r0 m Er0 Ez0). congruence.
+  - intros r0. destruct (E r0) as [E1 E2]. split; [exact E1|].
+    intros Hf. apply E2. destruct (Z.eqb_spec r0 r) as [E0|Hne]; [subst r0; rewrite upd_same in Hf; discriminate|].
+    rewrite upd_other in Hf by exact Hne. exact Hf.
+  - intros r0 m Hr0 Hs. destruct (Z.eqb_spec r0 r) as [E0|Hne]; [subst r0|].
+    + assert (Ez : isz (sto s r m) = false) by (apply isz_false; exact Hs). rewrite Ez. cbn [negb].
+      rewrite orb_true_r. split; [reflexivity|]. destruct (min s m); cbn; reflexivity.
+    + rewrite upd_other in Hr0 by exact Hne. destruct (G r0 m Hr0 Hs) as [X Y]. rewrite X. cbn [orb].
+      split; [reflexivity|]. destruct (isz (sto s r m)); cbn [negb]; [exact Y|]. rewrite Y. cbn. reflexivity.
+  - intros m r0 Hb. destruct (isz (sto s r m)) eqn:Ez; cbn [negb] in *.
+    + destruct (H m r0 Hb) as [X [Y Z]]. rewrite X. cbn [orb]. split; [reflexivity|]. split; [|exact Z].
+      destruct (Z.eqb_spec r0 r) as [E0|Hne]; [subst r0; apply upd_same|rewrite upd_other by exact Hne; exact Y].
+    + rewrite orb_true_r. split; [reflexivity|].
+      destruct (Z.eqb_spec r0 r) as [E0|Hne]; [subst r0|].
+      * rewrite upd_same. split; [reflexivity|]. apply isz_false. exact Ez.
+      * rewrite upd_other by exact Hne. destruct (min s m); cbn [orb] in Hb; [|discriminate].
+        destruct (H m r0 Hb) as [_ [Y Z]]. tauto.
+  - exact I.
+  - intros m r0 Hb. destruct (Z.eqb_spec r0 r) as [E0|Hne]; [subst r0; exact Hr|].
+    destruct (isz (sto s r m)); cbn [negb] in Hb; [apply (J m r0 Hb)|].
+    destruct (min s m); cbn [orb] in Hb; [apply (J m r0 Hb)|discriminate].
+  - intros r0 Hr0. destruct (Z.eqb_spec r0 r) as [E0|Hne]; [subst r0; exact Hr|].
+    rewrite upd_other in Hr0 by exact Hne. apply (K r0 Hr0).
+Qed.
+
+(* Model.add_metabolites([Metabolite(m)]) with a fresh object *)
+Lemma add_met_Inv s m : Inv s -> Inv (fst (step s (AddMet m))).
+Proof.
+  intros HI. cbn [step]. pose proof (note_ids_Inv [] [m] s HI) as H0.
+  set (s0 := note_ids [] [m] s) in *. clearbody s0.
+  destruct (min s0 m) eqn:Em; [exact H0|]. cbn [fst].
+  conts. unfold model_add_mets. expl.
+  destruct H0 as [A B C D E G H I J K].
+  assert (Hz : forall r, rin s0 r = true -> sto s0 r m = q0).
+  { intros r Hr. destruct (isz (sto s0 r m)) eqn:Ez; [apply isz_true; exact Ez|].
+    apply isz_false in Ez. destruct (G r m Hr Ez). congruence. }
+  constructor; cbn; try assumption.
+  - intros m0. rewrite C. reflexivity.
+  - intros m0 r. destruct (D m0 r) as [D1 D2]. rewrite D1, D2.
+    destruct (Z.eqb_spec m0 m) as [E0|Hne]; [subst m0|].
+    + rewrite Em. cbn [orb]. rewrite andb_false_r, andb_true_r.
+      destruct (rin s0 r) eqn:Er; [|tauto]. rewrite (Hz r Er), opp_q0. tauto.
+    + rewrite orb_false_r. tauto.
+  - intros r m0 Hr Hs. destruct (G r m0 Hr Hs) as [X Y]. rewrite X. cbn [orb]. split; [reflexivity|].
+    destruct (Z.eqb_spec m0 m) as [E0|Hne]; [subst m0; congruence|]. rewrite upd_other by exact Hne. exact Y.
+  - intros m0 r Hb. destruct (Z.eqb_spec m0 m) as [E0|Hne]; [subst m0; rewrite upd_same in Hb; discriminate|].
+    rewrite upd_other in Hb by exact Hne. destruct (H m0 r Hb) as [X [Y Z]]. rewrite X. tauto.
+  - intros m0 r Hb. destruct (Z.eqb_spec m0 m) as [E0|Hne]; [subst m0; rewrite upd_same in Hb; discriminate|].
+    rewrite upd_other in Hb by exact Hne. apply (J m0 r Hb).
+Qed.
+
+Lemma remove_met_nd_Inv s m : Inv s -> Inv (remove_met_nd m s).
+Proof.
+  intros HI. unfold remove_met_nd. destruct (min s m) eqn:Em; cbn [negb]; [|exact HI].
+  conts. unfold remove_met_nd_content, content, set_ctx. cbn.
+  destruct HI as [A B C D E G H I J K].
+  constructor; cbn; try assumption.
+  - intros m0. unfold upd. destruct (m0 =? m); [reflexivity|apply C].
+  - intros m0 r. destruct (Z.eqb_spec m0 m) as [E0|Hne]; [subst m0|].
+    + rewrite !upd_same. rewrite andb_false_r. tauto.
+    + rewrite !upd_other by exact Hne. cbn [andb]. apply D.
+  - intros r m0 Hr Hs. destruct (Z.eqb_spec m0 m) as [E0|Hne]; [subst m0|].
+    + cbn [andb] in Hs. destruct (back s m r) eqn:Eb; [congruence|].
+      destruct (G r m Hr Hs). congruence.
+    + cbn [andb] in Hs. rewrite !upd_other by exact Hne. apply (G r m0 Hr Hs).
+  - intros m0 r Hb. destruct (Z.eqb_spec m0 m) as [E0|Hne]; [subst m0; rewrite upd_same in Hb; discriminate|].
+    rewrite upd_other in Hb by exact Hne. rewrite upd_other by exact Hne. cbn [andb]. apply (H m0 r Hb).
+  - intros r m0 Hs. apply (I r m0). destruct ((m0 =? m) && back s m r); [congruence|exact Hs].
+  - intros m0 r Hb. destruct (Z.eqb_spec m0 m) as [E0|Hne]; [subst m0; rewrite upd_same in Hb; discriminate|].
+    rewrite upd_other in Hb by exact Hne. apply (J m0 r Hb).
+Qed.
+
+Lemma orphaned_only s r m : (forall m r, back s m r = true -> In r (rids s)) ->
+  orphaned s r m = true -> forall r', back s m r' = true -> r' = r.
+Proof.
+  intros J Ho r' Hb. unfold orphaned in Ho. rewrite !andb_true_iff in Ho. destruct Ho as [_ Hall].
+  rewrite forallb_forall in Hall. specialize (Hall r' (J m r' Hb)).
+  apply orb_true_iff in Hall as [E|E]; [apply Z.eqb_eq; exact E|]. rewrite Hb in E. discriminate.
+Qed.
+
+Lemma remove_rxn_Inv s r o : Inv s -> Inv (remove_rxn r o s).
+Proof.
+  intros HI. unfold remove_rxn. destruct (rin s r) eqn:Er; cbn [negb]; [|exact HI].
+  conts. unfold remove_rxn_content, content, set_ctx. cbn.
+  destruct HI as [A B C D E G H I J K].
+  set (gone := fun m => o && orphaned s r m).
+  assert (Hg : forall m r', gone m = true -> back s m r' = true -> r' = r).
+  { intros m r' Hgm Hb. unfold gone in Hgm. apply andb_true_iff in Hgm as [_ Ho].
+    apply (orphaned_only s r m J Ho r' Hb). }
+  constructor; cbn.
+  - intros r0. destruct (Z.eqb_spec r0 r) as [E0|Hne]; [subst r0; rewrite upd_same; tauto|].
+    rewrite upd_other by exact Hne. apply A.
+  - intros r0 Hr0. destruct (Z.eqb_spec r0 r) as [E0|Hne]; [subst r0; rewrite upd_same in Hr0; discriminate|].
+    rewrite upd_other in Hr0 by exact Hne. apply B. exact Hr0.
+  - intros m. rewrite C. reflexivity.
+  - intros m r0. destruct (Z.eqb_spec r0 r) as [E0|Hne]; [subst r0; rewrite upd_same; cbn; tauto|].
+    rewrite upd_other by exact Hne. cbn [orb]. fold (gone m).
+    destruct (gone m) eqn:Egm; cbn [negb]; [rewrite andb_false_r, andb_false_r; tauto|].
+    rewrite andb_true_r. apply D.
+  - intros r0. destruct (Z.eqb_spec r0 r) as [E0|Hne]; [subst r0; rewrite upd_same; rewrite opp_q0; tauto|].
+    rewrite upd_other by exact Hne. apply E.
+  - intros r0 m Hr0 Hs. destruct (Z.eqb_spec r0 r) as [E0|Hne]; [subst r0; rewrite upd_same in Hr0; discriminate|].
+    rewrite upd_other in Hr0 by exact Hne. destruct (G r0 m Hr0 Hs) as [X Y]. cbn [andb]. fold (gone m).
+    split; [|exact Y]. rewrite X. cbn [andb].
+    destruct (gone m) eqn:Egm; [|reflexivity]. exfalso. apply Hne. apply (Hg m r0 Egm Y).
+  - intros m r0 Hb. destruct (Z.eqb_spec r0 r) as [E0|Hne]; [subst r0|].
+    + cbn [andb] in Hb. destruct (isz (sto s r m)) eqn:Ez; cbn [negb] in Hb; [|discriminate].
+      destruct (H m r Hb) as [_ [_ Z]]. apply isz_true in Ez. contradiction.
+    + cbn [andb] in Hb. destruct (H m r0 Hb) as [X [Y Z]]. rewrite upd_other by exact Hne. fold (gone m).
+      split; [|tauto]. rewrite X. cbn [andb]. destruct (gone m) eqn:Egm; [|reflexivity].
+      exfalso. apply Hne. apply (Hg m r0 Egm Hb).
+  - exact I.
+  - intros m r0 Hb. apply (J m r0). destruct ((r0 =? r) && negb (isz (sto s r m))); [discriminate|exact Hb].
+  - intros r0 Hr0. destruct (Z.eqb_spec r0 r) as [E0|Hne]; [subst r0; rewrite upd_same in Hr0; discriminate|].
+    rewrite upd_other in Hr0 by exact Hne. apply (K r0 Hr0).
+Qed.
+
+Lemma remove_met_d_Inv s m : Inv s -> Inv (remove_met_d m s).
+Proof.
+  intros HI. unfold remove_met_d. destruct (min s m) eqn:Em; cbn [negb]; [|exact HI].
+  conts. unfold remove_met_d_content, content, set_ctx. cbn.
+  destruct HI as [A B C D E G H I J K].
+  set (dead := fun r => back s m r && rin s r).
+  constructor; cbn.
+  - intros r0. destruct (A r0) as [A1 A2]. rewrite A1, A2. tauto.
+  - intros r0 Hr0. apply andb_true_iff in Hr0 as [Hr0 _]. apply B. exact Hr0.
+  - intros m0. unfold upd. destruct (m0 =? m); [reflexivity|apply C].
+  - intros m0 r0. fold (dead r0). destruct (Z.eqb_spec m0 m) as [E0|Hne]; [subst m0|].
+    + rewrite upd_same. cbn [orb]. rewrite andb_false_r. tauto.
+    + rewrite upd_other by exact Hne. cbn [orb].
+      destruct (dead r0) eqn:Ed; cbn [negb]; [rewrite andb_false_r; cbn [andb]; tauto|].
+      rewrite andb_true_r. apply D.
+  - intros r0. fold (dead r0). destruct (dead r0) eqn:Ed; cbn [negb].
+    + rewrite opp_q0. tauto.
+    + rewrite andb_true_r. apply E.
+  - intros r0 m0 Hr0 Hs. fold (dead r0) in *. apply andb_true_iff in Hr0 as [Hr0 Hd]. apply negb_true_iff in Hd.
+    rewrite Hd. cbn [andb]. destruct (G r0 m0 Hr0 Hs) as [X Y].
+    destruct (Z.eqb_spec m0 m) as [E0|Hne]; [subst m0|].
+    + unfold dead in Hd. rewrite Y, Hr0 in Hd. discriminate.
+    + rewrite upd_other by exact Hne. tauto.
+  - intros m0 r0 Hb. fold (dead r0) in *.
+    assert (Hb0 : back s m0 r0 = true) by (destruct (dead r0 && negb (isz (sto s r0 m0))); [discriminate|exact Hb]).
+    destruct (H m0 r0 Hb0) as [X [Y Z]].
+    assert (Hd : dead r0 = false).
+    { destruct (dead r0) eqn:Ed; [|reflexivity]. cbn [andb] in Hb.
+      assert (isz (sto s r0 m0) = false) by (apply isz_false; exact Z). rewrite H0 in Hb. discriminate. }
+    rewrite Hd. cbn [negb]. rewrite andb_true_r.
+    destruct (Z.eqb_spec m0 m) as [E0|Hne]; [subst m0|].
+    + unfold dead in Hd. rewrite Hb0, Y in Hd. discriminate.
+    + rewrite upd_other by exact Hne. tauto.
+  - exact I.
+  - intros m0 r0 Hb. apply (J m0 r0). destruct (_ && negb (isz (sto s r0 m0))); [discriminate|exact Hb].
+  - intros r0 Hr0. apply andb_true_iff in Hr0 as [Hr0 _]. apply (K r0 Hr0).
+Qed.
